@@ -1319,7 +1319,7 @@ static void gen(rng &r, const std::string &tier)
     // ---------------- (3b) exhaustive: EVERY string of length <= 6 (thorough: 7) over {+ - . e E 0 1 9 space x}
     // through EVERY entry point (op gx: hashed batches; the oracle judges every string)
     {
-        // quick: lengths 0..5 and a seed-dependent tenth of length 6 through model AND code (gx), the rest of
+        // quick: lengths 0..5 and a seed-dependent 16th of length 6 through model AND code (gx), the rest of
         // length 6 judged by the oracle only (gxo); thorough: all of length 6 and a 16th of length 7 per seed through both
         const uint64_t B = 4000;
         uint64_t total = 1;
@@ -1328,7 +1328,7 @@ static void gen(rng &r, const std::string &tier)
         if (!th)
         {
             for (uint64_t c = 0, i = 0; c < 1000000; c += B, i++)
-                printf("%s 6 %llu %llu\n", i % 10 == g_seed % 10 ? "gx" : "gxo", (unsigned long long)c, (unsigned long long)B);
+                printf("%s 6 %llu %llu\n", i % 16 == g_seed % 16 ? "gx" : "gxo", (unsigned long long)c, (unsigned long long)B); // round 3b: a 16th (was a tenth) through the model
         }
         else
         {
@@ -1377,7 +1377,7 @@ static void gen(rng &r, const std::string &tier)
             nth++;
             lng(k, {{"0", K}, {"1", 1}, {".", 1}, {"5", 1}});
             lng(k, {{"1", 1}, {"e", 1}, {"0", K}, {"5", 1}, {"x", 1}});
-            lng(k, {{"1", 1}, {"e", 1}, {"-", 1}, {"9", th || nth == 1 ? K : 5}});
+            lng(k, {{"1", 1}, {"e", 1}, {"-", 1}, {"9", th ? K : 5}}); // round 3b: the 300 KiB exponent of nines (10^6 scaling steps) of the float parser only in the thorough tier (quick: igris_atof64)
             lng(k, {{"-", 1}, {"0", 900}, {"4", 1}, {"2", 1}, {".", 1}, {"0", 17}, {"1", 1}, {"E", 1}, {"0", 50}, {"2", 1}});
             if (nth == 1) lng(k, {{"0", 1}, {".", 1}, {"0", 3000}, {"1", 1}}, "C12-atof32-digit-count");
         }
